@@ -74,6 +74,12 @@ def gen_script(rng, scenario, knobs):
         if rng.random() < knobs.get('trigger_p', 0.0):
             d['when_state'] = rng.choice(['SYNCHRONIZATION', 'ELECTION', 'DISTRIBUTION', 'OPERATION', 'CONCILIATION'])
             d['when_who'] = rng.choice(['master', 'any', 'target'])
+        if kind == 'proc_kill_closing':
+            # a process whose crash restarts / shuts down Supvisors dies while somebody is in ELECTION (typically
+            # right after the previous disturbance brought a new instance in)
+            d.pop('when_state', None)
+            d['down'] = round(rng.uniform(0.3, 3.0), 2)
+            d['lag'] = rng.choice([0.0, 0.0, 0.05, 0.3, 1.0])
         dist.append(d)
     return {'boot': boot, 'late': late, 'dist': dist, 'k_ticks': k_ticks}
 
@@ -202,6 +208,37 @@ class Run:
             self.pending_until = max(self.pending_until, w.now + d['duration'])
         elif kind == 'proc_kill':
             rec['noop'] = not self.kill_some_process(target)
+        elif kind == 'proc_kill_closing':
+            # a non-Master instance restarts quickly: when it is admitted again the Master goes through ELECTION; a
+            # process whose crash restarts / shuts down Supvisors dies at that moment
+            master = self.current_master(vws)
+            others = [i.nick for i in w.live() if i.nick != master]
+            rec['noop'] = True
+            rec['why'] = 'no-master-or-peer'
+            if master and others:
+                rec['why'] = 'no-election'
+                victim = self.rng.choice(others)
+                rec['restarted'] = victim
+                w.crash_instance(victim)
+                w.at(w.now + d['down'], self._reboot, victim)
+                armed = {'on': True}
+
+                def kill():
+                    rec['noop'] = not self.kill_some_process(target, closing=True)
+                    rec['why'] = 'no-candidate' if rec['noop'] else 'applied'
+
+                def on_state(inst, payload):
+                    # the Master publishes ELECTION: the process dies now (or a little later)
+                    if armed['on'] and inst.nick == master and payload['fsm_statename'] == 'ELECTION':
+                        armed['on'] = False
+                        w.at(w.now + d['lag'], kill)
+                w.on_hook('send_state_event', on_state)
+                deadline = w.now + 25 * TICK
+                while w.now < deadline and armed['on']:
+                    w.run_for(0.5)
+                armed['on'] = False
+                w.run_for(d['lag'] + 0.01)
+            self.pending_until = max(self.pending_until, w.now + 40.0)
         elif kind == 'dup':
             rec['noop'] = not self.duplicate_some_process()
         elif kind in ('user_restart_shutdown', 'user_shutdown_restart'):
@@ -243,13 +280,19 @@ class Run:
                 w.heal_link(a, b)
         self.last_membership_change = w.now
 
-    def kill_some_process(self, nick):
+    def kill_some_process(self, nick, closing=False):
         """ A running process dies unexpectedly (SIGKILL from outside Supervisor). """
         w = self.world
         candidates = []
+        procs = gen.model_processes(self.scenario['model'])
         for inst in w.live():
             for pid, rec in inst.procs.items():
                 if not rec['dead'] and rec.get('death_at') is None:
+                    if closing:
+                        app_name, prog_name = procs.get(rec['namespec'], (None, None))
+                        prog = self.scenario['model'].get(app_name, {}).get('programs', {}).get(prog_name, {})
+                        if prog.get('running_failure_eff') not in ('RESTART', 'SHUTDOWN'):
+                            continue
                     candidates.append((inst, pid))
         if not candidates:
             return False
